@@ -129,7 +129,8 @@ int main(int argc, char** argv) {
     alarm(60);
     if (hc_is(0, "reset")) { cur_exec++; ev_begin("reset"); ev_end(); continue; }
     if (hc_is(0, "decl")) { emit_decl((int)hc_int(1)); continue; }
-    if (hc_is(0, "rt")) {
+    if (hc_is(0, "rt") || hc_is(0, "rert")) {      /* rert: the SAME Type object constructed again in place with another instance list */
+      int again = hc_is(0, "rert");
       int t = (int)hc_int(1); int n = hc_nw - 2;
       var* args = alloca((size_t)(n + 3) * sizeof(var));
       char* nm = malloc(32); snprintf(nm, 32, "RT%d", t);
@@ -145,8 +146,8 @@ int main(int argc, char** argv) {
       var targs = header_init(malloc(sizeof(struct Header) + sizeof(struct Tuple)), Tuple, AllocStack);
       memcpy(targs, &tup, sizeof tup);
       volatile var made = NULL;
-      HC_TRY(made = new_raw_with(Type, targs));
-      RT[t - 100] = made;
+      if (again && RT[t - 100]) { made = RT[t - 100]; HC_TRY(destruct(made); construct_with(made, targs)); }
+      else { HC_TRY(made = new_raw_with(Type, targs)); RT[t - 100] = made; }
       ev_begin("rt"); ev_int("t", t); ev_int("n", n); ev_str("exc", hc_exc); ev_end();
       continue;
     }
